@@ -1121,6 +1121,7 @@ void reb_calculate_acceleration_var(struct reb_simulation* r){
                         particles_var1[0].az = 0.; 
                         for (int j=0; j<_N_real; j++){
                             if (i==j) continue;
+                            if (j>=_N_active && (i>=_N_active || !_testparticle_type)) continue; // test particles do not act on (other) test particles
                             if (_gravity_ignore_terms==1 && ((j==1 && i==0) || (i==1 && j==0))) continue;
                             if (_gravity_ignore_terms==2 && ((j==0 || i==0))) continue;
                             const double dx = particles[i].x - particles[j].x;
@@ -1170,7 +1171,7 @@ void reb_calculate_acceleration_var(struct reb_simulation* r){
                             particles_var2[i].ay = 0.; 
                             particles_var2[i].az = 0.; 
                         }
-                        for (int i=0; i<_N_real; i++){
+                        for (int i=0; i<_N_active; i++){ // pairs of two test particles do not interact
                         for (int j=i+1; j<_N_real; j++){
                             // TODO: Need to implement WH skipping
                             //if (_gravity_ignore_terms==1 && ((j==1 && i==0) || (i==1 && j==0))) continue;
@@ -1232,6 +1233,7 @@ void reb_calculate_acceleration_var(struct reb_simulation* r){
                             const double dk2Gmi = G * particles_var1b[i].m;
                             const double dk2Gmj = G * particles_var1b[j].m;
 
+                            if (j<_N_active){ // test particles (testparticle_type 0) do not act on active particles
                             particles_var2[i].ax += Gmj * dax 
                                 - ddGmj*r3inv*dx 
                                 - dk2Gmj*r3inv*dk1dx + 3.*dk2Gmj*r5inv*dx*rdk1
@@ -1244,6 +1246,7 @@ void reb_calculate_acceleration_var(struct reb_simulation* r){
                                 - ddGmj*r3inv*dz
                                 - dk2Gmj*r3inv*dk1dz + 3.*dk2Gmj*r5inv*dz*rdk1
                                 - dk1Gmj*r3inv*dk2dz + 3.*dk1Gmj*r5inv*dz*rdk2;
+                            }
                                                                                  
                             particles_var2[j].ax -= Gmi * dax 
                                 - ddGmi*r3inv*dx
@@ -1266,6 +1269,7 @@ void reb_calculate_acceleration_var(struct reb_simulation* r){
                         particles_var2[0].az = 0.; 
                         for (int j=0; j<_N_real; j++){
                             if (i==j) continue;
+                            if (j>=_N_active) continue; // test particles (testparticle_type 0) do not act on other particles
                             // TODO: Need to implement WH skipping
                             //if (_gravity_ignore_terms==1 && ((j==1 && i==0) || (i==1 && j==0))) continue;
                             //if (_gravity_ignore_terms==2 && ((j==0 || i==0))) continue;
